@@ -8,7 +8,9 @@ BOUNDS = {'energy law': 'N = 2 samples per polarisation (two polarisations, or o
           'polarisation equivalence': 'N in {2,3}: (a) dispersion on: the initial step size of the one-polarisation run equals that of the '
                                       'two-polarisation run with empty y (both cut at their first fft call); (b) beta2 = beta3 = 0: outputs equal '
                                       '(single step); full propagations are compared numerically in the validation/replay runs',
-          'finite output': 'N = 4, fields whose leading samples or all samples are zero: symbolically the initial step size is well defined (no division by zero before the first fft); the replay/validation runs check the whole output for nan/inf and termination'}
+          'finite output': 'N = 4, fields whose leading samples or all samples are zero: symbolically the initial step size is well defined (no division by zero before the first fft); the replay/validation runs check the whole output for nan/inf and termination',
+          'finite output, weak fields': 'N = 2, |E|^2 from 1e-16 W to 4 W, alpha in [0, 0.5] dB/km, L <= 100 km, gamma in [0.1, 5], symbolic beta2: every exp() '
+                                        'argument evaluated before the first fft (the first step) stays within +-700 (range of a double); first step + closing step explored'}
 OUTSIDE = ['convergence to the NLSE solution with error O(phi_max): a statement about a limit, no bounded algebraic form',
            'more than 3 full split steps; N > 3', 'the animated variants of FIBER']
 ASSUMPTIONS = ['|exp(j*x)| = 1, exp(a)exp(b) = exp(a+b) and r = sqrt(x) => r^2 = x from the axiom table',
@@ -259,6 +261,36 @@ def scen_finite(env, cfg):
                       until_event='fft')
 
 
+def scen_finite_weak(env, cfg):
+    """weak fields in a lossy, dispersive, nonlinear fibre: the output must be finite.  Real arithmetic cannot overflow, so the
+    float-range part of "finite" is carried by the definedness side conditions of exp (argument within the range of a double):
+    they must follow from the path condition for every field amplitude, loss and length."""
+    D_, T = env.lib.devices, env.lib.typing
+    _setup(env)
+    pol = cfg['pol']
+    v = env.cplx('v', -2, 2)
+    env.assume(env.abs2(v) >= env.const('1e-16'))          # down to 1e-16 W: far weaker than any received signal
+    row = [v, v]
+    z = 0 * env.re(v)
+    x = T.optical_signal(list(row)) if pol == 1 else T.optical_signal([list(row), [z] * 2])
+    g = env.real('gamma', 0.1, 5)
+    L = env.real('L', 0.1, 100)
+    al = env.real('alpha', 0, 0.5)
+    b2 = env.real('beta_2', -25, 25)
+    if env.symbolic:
+        from vf.core import ctx
+        ctx().limits['max_fft_calls'] = 4          # a first step and the closing step: the run in which the first step overshoots the fibre
+    mk = env.mark()
+    try:
+        y = D_.FIBER(x, L, alpha=al, beta_2=b2, gamma=g)
+        outs = [y.signal]
+    except (env.NonFinite, ZeroDivisionError):
+        outs = None
+    steer = [(env.abs2(v) <= env.const('1e-9')).t, (al >= env.const('0.2')).t, (g <= 2).t] if env.symbolic else None
+    env.check_defined('FIBER returns a finite field for weak inputs in a lossy fibre (no exp() leaves the range of a double)', outs, since=mk,
+                      until_event='fft', steer=steer)
+
+
 def scen_noise(env, cfg):
     D_, T = env.lib.devices, env.lib.typing
     _setup(env)
@@ -289,6 +321,8 @@ def configs(tier):
     for pol in (1, 2):
         for lossy in (False, True):
             out.append((f'spm-n2-pol{pol}-{"lossy" if lossy else "lossless"}', scen_spm, dict(n=2, pol=pol, lossy=lossy), {}))
+    for pol in (1, 2):
+        out.append((f'finite-weak-lossy-pol{pol}', scen_finite_weak, dict(pol=pol), {'validate': 2, 'limits': {'feas_timeout_ms': 1000}}))
     for n in ((2,) if q else (2, 3)):
         out.append((f'pol-equivalence-stepsize-n{n}', scen_pol_equiv, dict(n=n, mode='stepsize'), {'validate': 2, 'limits': {'feas_timeout_ms': 1000},
                     'expect_reach': ['the one-polarisation run uses the same step sizes as the two-polarisation run']}))
